@@ -251,13 +251,15 @@ func genSlice(r *gen.R, validOnly bool) (mon.OpReq, Expect, bool) {
 				steps[r.Intn(k)] = 0
 			}
 		case 1:
-			if useAxes && k > 1 {
-				axes[0] = axes[1]
+			if useAxes && k > 1 { // one axis named twice, at any two positions of the list
+				i := r.Intn(k)
+				j := (i + 1 + r.Intn(k-1)) % k
+				axes[i] = axes[j]
 				if r.Bool() { // the same axis once non-negative and once negative
-					if axes[1] >= 0 {
-						axes[0] = axes[1] - int64(rank)
+					if axes[j] >= 0 {
+						axes[i] = axes[j] - int64(rank)
 					} else {
-						axes[0] = axes[1] + int64(rank)
+						axes[i] = axes[j] + int64(rank)
 					}
 				}
 			}
@@ -281,6 +283,12 @@ func genSlice(r *gen.R, validOnly bool) (mon.OpReq, Expect, bool) {
 		}
 	}
 	mk := func(v []int64) *ref.T { return ref.FromI(idxDT, []int{len(v)}, v) }
+	if !validOnly && k == 1 && len(ends) == 1 && r.Chance(0.12) {
+		// every index operand as a rank-0 tensor (ONNX asks for 1-D lists; a library that reads a
+		// scalar as a list of one answers the slice, another one refuses: never the unsliced tensor)
+		mk = func(v []int64) *ref.T { return ref.FromI(idxDT, []int{}, v) }
+		core = false
+	}
 	req := mon.OpReq{Op: "Slice", Inputs: []*ref.T{x, mk(starts), mk(ends)}}
 	var ax, st []int64
 	switch {
